@@ -1258,7 +1258,7 @@ where
     let seed = run.seed;
     let tier = run.tier;
     let depth: u8 = tier.pick(3, 4);
-    let grids: Vec<(usize, usize)> = tier.pick(vec![(8, 2)], vec![(8, 2), (8, 17), (16, 3)]);
+    let grids: Vec<(usize, usize)> = tier.pick(vec![(8, 2), (16, 17)], vec![(8, 1), (8, 2), (8, 17), (16, 3), (16, 17)]);
     let name = format!("programs/{}", B::NAME);
     if !run.wants(&name) {
         return;
